@@ -97,7 +97,7 @@ def reach_rule(ctx, f, g, cfg):
             continue
         t = s["term"]
         atoms = panics.site_atoms(f, s)
-        row = table_row(s, atoms)
+        row = table_row(s, atoms, f)
         r = g.lm.analyse(b)
         held = {r["acq"][j]["cls"] for j in r["held_at_term"].get(s["bb"], ())} | eh.get(b.path, set())
         held = sorted(c for c in held if is_shared(c))
